@@ -26,6 +26,21 @@
 
 bool c06_small_op(hp_line *l);   // c06_small.c
 
+// Link-time interposer (-Wl,--wrap=lzma_simple_coder_init, no source change): tells whether a BCJ filter
+// took part in a run, which is what decides how much of a rejected input's result the property fixes.
+static bool g_bcj_used;
+struct lzma_next_coder_s; struct lzma_filter_info_s;
+extern lzma_ret __real_lzma_simple_coder_init(void *next, const lzma_allocator *allocator, const void *filters,
+		size_t (*filter)(void *simple, uint32_t now_pos, bool is_encoder, uint8_t *buffer, size_t size),
+		size_t simple_size, size_t unfiltered_max, uint32_t alignment, bool is_encoder);
+lzma_ret __wrap_lzma_simple_coder_init(void *next, const lzma_allocator *allocator, const void *filters,
+		size_t (*filter)(void *simple, uint32_t now_pos, bool is_encoder, uint8_t *buffer, size_t size),
+		size_t simple_size, size_t unfiltered_max, uint32_t alignment, bool is_encoder)
+{
+	g_bcj_used = true;
+	return __real_lzma_simple_coder_init(next, allocator, filters, filter, simple_size, unfiltered_max, alignment, is_encoder);
+}
+
 // ---------------------------------------------------------------------------------------------
 // filter chains
 // ---------------------------------------------------------------------------------------------
@@ -388,6 +403,7 @@ static void do_run(coder *c, lzma_stream *strm, const uint8_t *in, size_t in_len
 		bool final_finish, c06_result *r)
 {
 	c06_result_reset(r);
+	g_bcj_used = false;
 	lzma_ret ir = coder_init(c, strm, &in, &in_len, r);
 	if (ir != LZMA_OK) {
 		r->ret = 100 + (int)ir;
@@ -404,6 +420,7 @@ static void do_run(coder *c, lzma_stream *strm, const uint8_t *in, size_t in_len
 		sl = &tmp;
 	}
 	c06_run_sliced(strm, in, in_len, sl, final_finish || c->is_encoder, c->seekable, c->timed, r);
+	r->bcj = g_bcj_used;
 	coder_post(c, r);
 }
 
